@@ -1834,6 +1834,7 @@ struct Args {
   bool no_epilogue = false;
   bool iterate = true;
   int galg = 0;
+  std::string galg_roots;  // comma-separated program prefixes (e.g. "v=1;"), "-" = the empty prefix
 };
 
 vs::Config
@@ -1889,6 +1890,8 @@ main(int argc, char **argv)
       a.no_epilogue = true;
     } else if (k == "--galg") {
       a.galg = atoi(val().c_str());
+    } else if (k == "--galg-roots") {
+      a.galg_roots = val();
     } else {
       fprintf(stderr, "unknown argument %s\n", k.c_str());
       return 2;
@@ -1922,8 +1925,14 @@ main(int argc, char **argv)
 #if LK == 1
     roots.push_back("v=fffffffe;");
 #endif
+    if (!a.galg_roots.empty()) {
+      roots.clear();
+      std::stringstream rs(a.galg_roots);
+      std::string r;
+      while (std::getline(rs, r, ',')) roots.push_back(r == "-" ? "" : r);
+    }
     int rc = 0;
-    size_t total_states = 0, total_trans = 0;
+    size_t total_states = 0, total_trans = 0, violating = 0;
     int depth_done = a.galg;
     bool cut = false;
     for (auto &root : roots) {
@@ -1952,8 +1961,11 @@ main(int argc, char **argv)
           g_galg_key = 0;
           auto r = vs::Explore(scn, cfg);
           char head[160];
+          size_t nfatal = 0;
+          for (auto &v : r.violations) nfatal += v.fatal ? 1 : 0;
+          // violations: count, +1000000 when one of them ended the execution (deadlock, crash, horizon)
           snprintf(head, sizeof head, "%016" PRIx64 "\x01%" PRIu64 "\x01%" PRIu64 "\x01%zu\x01", g_galg_key, static_cast<uint64_t>(r.executions),
-                   static_cast<uint64_t>(r.steps), r.violations.size());
+                   static_cast<uint64_t>(r.steps), r.violations.size() + (nfatal ? 1000000 : 0));
           return std::string(head) + (r.violations.empty() ? std::string() : vs::ResultToJson(r)) + "\n";
         };
         auto parse_lines = [&](const std::string &txt, size_t first, size_t count) {
@@ -2039,11 +2051,15 @@ main(int argc, char **argv)
             fprintf(out, "{\"lock\":\"%s\",\"program\":\"%s\",\"status\":%d,\"err\":\"%s\",\"result\":%s}\n", kLockName,
                     vs::JsonEscape(root + cand[i].hist).c_str(), o.internal ? 2 : 1, vs::JsonEscape(o.err).c_str(), o.json.empty() ? "null" : o.json.c_str());
             if (o.internal) rc = 2;
-            continue;  // a history that violates something is reported, not extended
+            ++violating;
+            // a history whose execution could not finish is not extended; one that violated a monitor but ran to its
+            // end is (a later operation may be the one that breaks *another* property), up to a cap on the output
+            if (o.internal || o.nv >= 1000000 || violating > 4000) continue;
+          } else {
+            execs += o.ex;
+            steps += o.st;
+            ++clean;
           }
-          execs += o.ex;
-          steps += o.st;
-          ++clean;
           char kb[24];
           snprintf(kb, sizeof kb, ":%016" PRIx64, o.key);
           if (seen.insert(cand[i].m.Str() + kb).second) {
